@@ -340,6 +340,7 @@ class SPSCRingBuffer {
     DISPENSO_VERIF_POINT("spsc.pop.data_read", elementAt(currentHead));
     T* elem = elementAt(currentHead);
     item = std::move(*elem);
+    DISPENSO_VERIF_POINT("spsc.pop.data_destroy", elem);
     elem->~T();
     DISPENSO_VERIF_POINT("spsc.pop.head_store", &head_);
     head_.store(increment(currentHead), std::memory_order_release);
@@ -385,6 +386,7 @@ class SPSCRingBuffer {
     DISPENSO_VERIF_POINT("spsc.pop.data_read", elementAt(currentHead));
     T* elem = elementAt(currentHead);
     OpResult<T> result(std::move(*elem));
+    DISPENSO_VERIF_POINT("spsc.pop.data_destroy", elem);
     elem->~T();
     DISPENSO_VERIF_POINT("spsc.pop.head_store", &head_);
     head_.store(increment(currentHead), std::memory_order_release);
@@ -429,6 +431,7 @@ class SPSCRingBuffer {
     DISPENSO_VERIF_POINT("spsc.pop.data_read", elementAt(currentHead));
     T* elem = elementAt(currentHead);
     new (storage) T(std::move(*elem));
+    DISPENSO_VERIF_POINT("spsc.pop.data_destroy", elem);
     elem->~T();
     DISPENSO_VERIF_POINT("spsc.pop.head_store", &head_);
     head_.store(increment(currentHead), std::memory_order_release);
@@ -547,6 +550,7 @@ class SPSCRingBuffer {
       DISPENSO_VERIF_POINT("spsc.popb.data_read", elementAt(headPos));
       T* elem = elementAt(headPos);
       *dest = std::move(*elem);
+      DISPENSO_VERIF_POINT("spsc.popb.data_destroy", elem);
       elem->~T();
       headPos = increment(headPos);
     }
